@@ -170,6 +170,11 @@ func (p *Pollard) getNode(pos uint64) (n, sibling, parent *polNode, err error) {
 // GetHash returns the hash for the given position. Empty hash (all values are 0) is returned
 // if the given position does not exist.
 func (p *Pollard) GetHash(pos uint64) Hash {
+	// DetectOffset only gives a meaningful answer for positions that exist in the
+	// accumulator. For the others it'd lead to the hash of some other node.
+	if !inForest(pos, p.NumLeaves, TreeRows(p.NumLeaves)) {
+		return empty
+	}
 	return p.getHash(pos)
 }
 
